@@ -185,6 +185,10 @@ func Catalogue(dir string) []Case {
 		{name: "grandchild-holds-stdout-exit1", body: "sleep " + sleepS + " &\nexit 1", holds: true},
 		{name: "grandchild-and-sleeping-parent", body: "sleep " + sleepS + " &\nexec sleep " + sleepS, holds: true},
 		{name: "grandchild-detached", body: "sleep " + sleepS + " </dev/null >/dev/null 2>&1 &\necho 42", stdout: "42"},
+		// the command itself exits 0 at once; a child keeps stdout open until shortly AFTER the 0.2 s (2 s) deadline and lets go
+		// within the pipe grace period: the call then has the complete output of a successful command (or may report an error)
+		{name: "grandchild-holds-stdout-until-0.45s", body: "sleep 0.45 &\necho 42", stdout: "42"},
+		{name: "exits-at-1.8s-grandchild-holds-stdout-until-2.25s", body: "sleep 2.25 &\nsleep 1.8\necho 42", stdout: "42"},
 		{name: "output-empty", body: "exit 0", stdout: ""},
 		{name: "output-non-numeric", body: "echo 'hello world'", stdout: "hello world"},
 		{name: "output-nonsense-number", body: "echo '12abc'", stdout: "12abc"},
